@@ -19,20 +19,21 @@ FORMULAS = {"C09": ["C09Deterministic", "C09Output"], "C10": ["C10Best", "C10Lab
             "C20": ["C20Cli"]}
 
 
-def mc_cfg(R, W, K, variant="spec", faults='{"none", "badArgs", "jsonFail", "svgFail"}', live=True):
-    return ("SPECIFICATION Spec\nCONSTANTS\n  R = %d\n  W = %d\n  K = %d\n  Stages = 3\n  M = 7\n  Variant = \"%s\"\n"
+def mc_cfg(R, W, K, variant="spec", faults='{"none", "badArgs", "jsonFail", "svgFail"}', live=True, M=7):
+    return ("SPECIFICATION Spec\nCONSTANTS\n  R = %d\n  W = %d\n  K = %d\n  Stages = 3\n  M = %d\n  Variant = \"%s\"\n"
             "  Faults = %s\nINVARIANTS TypeOK Ownership InputUnchanged Deterministic ReduceTreeIndependent BestWritten "
             "LoggedIsWritten PrefixMonotone ExitOK\n%sCHECK_DEADLOCK FALSE\n"
-            % (R, W, K, variant, faults, "PROPERTIES Terminates\n" if live else ""))
+            % (R, W, K, M, variant, faults, "PROPERTIES Terminates\n" if live else ""))
 
 
 def model_check(tier):
     th = tier == "thorough"
-    runs = [(3, 2, 1), (0, 2, 1), (2, 2, 2), (4, 2, 1)] + ([(4, 3, 1), (3, 3, 2), (5, 2, 1)] if th else [])
+    # (R, W, K, M): M = 2 or 3 makes replicas tie
+    runs = [(3, 2, 1, 7), (0, 2, 1, 7), (2, 2, 2, 7), (4, 2, 1, 3), (3, 2, 1, 2)] + ([(4, 3, 1, 7), (3, 3, 2, 5), (5, 2, 1, 3)] if th else [])
     jobs = []
-    for (R, W, K) in runs:
-        def job(R=R, W=W, K=K):
-            return (R, W, K), vp.run_tlc("Pipeline", mc_cfg(R, W, K), "pipe_mc_%d_%d_%d" % (R, W, K), workers=4,
+    for (R, W, K, M) in runs:
+        def job(R=R, W=W, K=K, M=M):
+            return (R, W, K), vp.run_tlc("Pipeline", mc_cfg(R, W, K, M=M), "pipe_mc_%d_%d_%d_%d" % (R, W, K, M), workers=4,
                                          timeout=3000, xmx="6g", deque=False)
         jobs.append(job)
     return vp.parallel(jobs, n=4)
@@ -135,6 +136,15 @@ def observe(tier, seed, want_cli=True, want_pool=True, cli_focus="all"):
                     run_cli(binary, rec, cfg, g, sargs, pot, maxreps, threads, opt, work, kind, items)
                     stats["cli_invocations"] += 1
                 k += 1
+        # many replicas per thread and long stages (reductions that treat batches of replicas
+        # differently show here)
+        for (g, sargs, kind, items) in [("p1", ["polygon", "--sides", "4"], "polygon", 4)] + \
+                ([("p2", ["trimer"], "trimer", 3), ("p2mg", ["circle"], "circle", 1)] if th else []):
+            cfg = rec.new_cfg()
+            for threads in (1, 2, 4, 16):
+                run_cli(binary, rec, cfg, g, sargs, "Hard", 16, threads,
+                        ["--steps", "1000", "--inner-steps", "1000", "--kt-start", "0.1"], work, kind, items)
+                stats["cli_invocations"] += 1
         # short hot Lennard-Jones runs: replicas end with scores of both signs
         cfg = rec.new_cfg()
         for reps in (1, 2, 3, 4, 5, 6):
